@@ -159,6 +159,8 @@ def run_spec(args):
     except TranslateError as e:
         out["status"] = "inconclusive"
         out["reason"] = "translation: " + str(e)
+        if os.environ.get("VERIF_DEBUG"):
+            traceback.print_exc()
         out["wall_s"] = time.time() - t0
         return out
     except Exception:
